@@ -1,4 +1,6 @@
 fn main() {
-    let checks = vcore::lean_checks();
+    let mut checks = vcore::lean_checks();
+    checks.push(vcore::CheckDef { name: "c17", run: vwincon::c17::run, replay: vwincon::c17::replay });
+    checks.push(vcore::CheckDef { name: "c18", run: vwincon::c18::run, replay: vwincon::c18::replay });
     std::process::exit(vcore::cli_main(checks));
 }
